@@ -346,6 +346,21 @@ func genC08(tier string) []Scenario {
 			}
 		}
 	}
+	// a two-digit limit is a limit like any other: 9 and 10 workers, as many mutually dependent items
+	// (thorough tier only, and only the first 20 000 schedules: nine symmetric workers have 9! orders)
+	for _, c := range []int{9, 10} {
+		if !th {
+			break
+		}
+		d := make([]int, c)
+		for i := range d {
+			d[i] = i
+		}
+		sc := batchScn{name: fmt.Sprintf("limit-barrier n=%d c=%d all items depend on each other", c, c), n: c, c: c, budget: 1, shape: shResults, execMenu: okMenu, postMenu: postX, barrier: d, bound: 0, chkLimit: true}
+		scn := sc.scenario()
+		scn.MaxExec = 20000
+		out = append([]Scenario{scn}, out...) // claimed first: cheap, and must not starve behind the long ones
+	}
 	// more workers than the quick tier's default, a couple of items beyond c, one preemption:
 	// windows that only open while the pool is still ramping up / while a worker is re-used
 	// (item 0 finishes at once and its worker comes back for more while the others are held in
